@@ -5,7 +5,7 @@ import gen_bus
 RULE = ('python-random histories with SCM_RIGHTS: messages (broadcast, unicast signals, calls) carrying 0-3 or 17 fresh temp files, header '
         'count equal / smaller (surplus stays held) / larger (invalid) than what is attached, two messages and their descriptors in one '
         'sendmsg, recipients with and without negotiated descriptor passing, missing names, sender or recipient disconnecting mid-way; every '
-        'received descriptor is identified by (st_dev, st_ino) and must be the announced files in order; every sixth scenario sends descriptors with 120-450 kB headers (several writes per message); after each scenario all clients close '
+        'received descriptor is identified by (st_dev, st_ino) and must be the announced files in order; every sixth scenario sends descriptors with 120-450 kB headers (several writes per message), every sixth has subscribers of mixed capability in every subscription order; after each scenario all clients close '
         'and the /proc/<pid>/fd count of the daemon must return to its baseline; distinct = distinct scenario texts')
 W = {'req': 1.5, 'rel': 0.5, 'query': 0.2, 'addmatch': 1.2, 'rmmatch': 0.2, 'signal': 1, 'call': 1, 'reply': 1,
      'usignal': 0.5, 'close': 0.6, 'driver_other': 0.1, 'nodest': 0.1, 'fdsend': 7}
@@ -33,9 +33,34 @@ def big_header(rng):
     return {'cfg': {}, 'rounds': rounds}
 
 
+def mixed_subscribers(rng):
+    """a broadcast that carries descriptors, subscribers of which some negotiated descriptor passing and some did not, in
+    every subscription order: each capable one gets its own copy with the descriptors, the others get nothing of it,
+    and an eavesdropped unicast behaves the same way"""
+    caps = [rng.random() < 0.5 for _ in range(3)]
+    if all(caps) or not any(caps):
+        caps[rng.randrange(3)] = not caps[0]
+    rounds = [{'ops': {'4': [{'k': 'connect', 'uid': 0, 'fdcap': True}, {'k': 'hello'}]}}]
+    order = [1, 2, 3]
+    rng.shuffle(order)
+    for s in order:
+        rule = rng.choice(["type='signal',interface='com.example.I'", "type='signal'", "interface='com.example.I',member='Ma'"])
+        rounds.append({'ops': {str(s): [{'k': 'connect', 'uid': 0, 'fdcap': caps[s - 1]}, {'k': 'hello'}, {'k': 'addmatch', 'rule': rule}]}})
+    ser = 7000
+    for _ in range(rng.choice([2, 3])):
+        ser += 1
+        rounds.append({'ops': {'4': [{'k': 'send', 'ty': 4, 'path': '/a', 'ifc': 'com.example.I', 'mem': 'Ma', 'sig': 'u', 'body': [ser],
+                                      'ser': ser, 'fds': rng.choice([1, 2])},
+                                     {'k': 'send', 'ty': 4, 'path': '/a', 'ifc': 'com.example.I', 'mem': 'Ma', 'sig': 'u', 'body': [ser + 100]}]}})
+    rounds.append({'ops': {'4': [{'k': 'query', 'q': 'list'}]}})
+    return {'cfg': {}, 'rounds': rounds}
+
+
 def gen(rng, i):
     if i % 6 == 4:
         return big_header(rng)
+    if i % 6 == 1:
+        return mixed_subscribers(rng)
     g = gen_bus.Gen(rng, nslots=4, nnames=2, w=W, odd_rules=0.0)
     g.fdcap = 0.75
     scn = g.scenario(nrounds=rng.choice([10, 14]), concurrency=0.3, burst=0.3)
